@@ -2,6 +2,7 @@ from __future__ import annotations
 
 import lark
 import sympy as sp
+from sympy.functions.elementary.trigonometric import TrigonometricFunction
 from . import sympytools
 from .exceptions import InvalidTreeError, MissingSymbolError
 
@@ -89,6 +90,16 @@ def unary_op(op: str, arg):
     raise RuntimeError(f"Invalid unary operation {op}")
 
 
+def _flatten(expr: sp.Basic) -> sp.Basic:
+    """Nested unevaluated sums and products as one flat (still unevaluated) sum / product"""
+    if not isinstance(expr, (sp.Add, sp.Mul)):
+        return expr
+    args: list[sp.Basic] = []
+    for arg in map(_flatten, expr.args):
+        args.extend(arg.args if isinstance(arg, type(expr)) else [arg])
+    return type(expr)(*args, evaluate=False)
+
+
 def build_expression(
     root: lark.Tree,
     symbols: dict[str, sp.Symbol] | None = None,
@@ -154,7 +165,14 @@ def build_expression(
                 # Only exceptions is 'abs' which is 'Abs'
                 funcname = "Abs"
 
-            return getattr(sp, funcname)(*[expr2symbols(c) for c in tree.children[1:]])
+            func = getattr(sp, funcname)
+            args = [expr2symbols(c) for c in tree.children[1:]]
+            if isinstance(func, type) and issubclass(func, TrigonometricFunction):
+                # sympy evaluates a periodic function by looking for multiples of pi among
+                # the terms of its argument, and expects a flat sum there. The sums built
+                # here are nested and unevaluated: sin((x + pi) + y) would become -sin(y)
+                args = [_flatten(arg) for arg in args]
+            return func(*args)
 
         if tree.data == "logicalfunc":
             if tree.children[0] == "Conditional":
